@@ -6,9 +6,11 @@ import (
 	"fmt"
 	"os"
 	"sort"
+	"strings"
 
 	"github.com/ipld/go-storethehash/store/types"
 
+	"verif/sim/simos"
 	"verif/sim/simrt"
 )
 
@@ -48,7 +50,7 @@ func genC11(seed uint64, tier string) *Plan {
 	if r.Chance(0.2) {
 		p.X["interrupt"] = 1 + r.Intn(6) // countdown contexts on some cycles
 	}
-	if p.X["mode"] != 1 && r.Chance(0.25) {
+	if r.Chance(0.25) {
 		// background class: after the files were emptied the store is reopened
 		// with its own collectors and flusher on short simulated intervals and
 		// left alone; the bound is stated in GC intervals of simulated time. This
@@ -56,12 +58,22 @@ func genC11(seed uint64, tier string) *Plan {
 		// collector's skipping of the free-file scan, time-limited cycles that
 		// resume), which explicit cycles bypass.
 		p.X["bg"] = 1
+		if p.X["mode"] == 1 {
+			p.X["thr"] = 85 // the background collector's fixed low-use threshold
+		}
 		p.X["bg_gc_ms"] = 2 + r.Intn(30)
 		p.X["bg_sync_ms"] = 1 + r.Intn(p.X["bg_gc_ms"])
-		p.X["bg_limit_ms"] = []int{0, 0, 1, 3}[r.Intn(4)]
+		p.X["bg_limit_ms"] = []int{0, 0, 20, 60}[r.Intn(4)]
 		p.X["interrupt"] = 0
 		if r.Chance(0.5) {
 			p.Sim.Latency = LatencyCfg{Kind: "const", Base: int64(1000 * (1 + r.Intn(200)))}
+			// a time limit has to leave room for the header and at least one whole
+			// file per cycle (a limited cycle resumes at the beginning of the file
+			// it was in): with less, no progress is possible by design, and the
+			// property does not quantify over time limits
+			if int64(p.X["bg_limit_ms"])*1000000 < 150*p.Sim.Latency.Base {
+				p.X["bg_limit_ms"] = 0
+			}
 		}
 	}
 	return p
@@ -90,6 +102,33 @@ func primaryFileStats(data []byte) (live, free int64, liveRecs int, ok bool) {
 
 func filesFingerprint() uint64 {
 	return fsOf().Snapshot().Hash()
+}
+
+// dataFingerprint hashes the names and contents of the non-empty files. The
+// background class samples it while collectors may be mid-cycle: every primary
+// GC cycle renames the (empty) freelist file to .gc, creates a fresh one and
+// removes the .gc file again, which is no change of the stored bytes.
+func dataFingerprint() uint64 {
+	files := fsOf().Files()
+	names := make([]string, 0, len(files))
+	for n, d := range files {
+		if len(d) > 0 {
+			names = append(names, n)
+		}
+	}
+	sort.Strings(names)
+	h := uint64(0xcbf29ce484222325)
+	mix := func(b []byte) {
+		for _, c := range b {
+			h = (h ^ uint64(c)) * 1099511628211
+		}
+		h = (h ^ 0xff) * 1099511628211
+	}
+	for _, n := range names {
+		mix([]byte(n))
+		mix(files[n])
+	}
+	return h
 }
 
 func runGCProg(p *Plan, tape *simrt.Tape, opt RunOpt) *RunOut {
@@ -287,7 +326,7 @@ func runGCProg(p *Plan, tape *simrt.Tape, opt RunOpt) *RunOut {
 			B *= 3
 		}
 		if p.x("bg", 0) == 1 {
-			d.gcProgBackground(p, target, oldFirst, B, imax, len(locs)+len(nonCurrent))
+			d.gcProgBackground(p, target, oldFirst, B, imax, len(locs)+len(nonCurrent), released)
 			return
 		}
 		rounds := 0
@@ -458,7 +497,7 @@ func runGCProg(p *Plan, tape *simrt.Tape, opt RunOpt) *RunOut {
 // files all of whose records were superseded and flushed) and the index files no
 // bucket refers into must be released within a bounded number of GC intervals
 // of simulated time, and after that the files must stop changing.
-func (d *Driver) gcProgBackground(p *Plan, target map[uint64]bool, oldFirst uint32, B int, imax uint64, nfix int) {
+func (d *Driver) gcProgBackground(p *Plan, target map[uint64]bool, oldFirst uint32, B int, imax uint64, nfix int, released func() []uint64) {
 	// index files no bucket refers into (before the collectors start)
 	curIdx := uint64(d.St.Index().VerifCurrentFile())
 	busy := map[uint64]bool{}
@@ -477,6 +516,13 @@ func (d *Driver) gcProgBackground(p *Plan, target map[uint64]bool, oldFirst uint
 		sort.Slice(cand, func(i, j int) bool { return cand[i] < cand[j] })
 	}
 	nIdx := len(numberedFiles(fsOf().Files(), indexPath))
+	if os.Getenv("VERIF_DEBUG_LEAK") != "" {
+		d.Ledger = newLedger()
+		d.CheckLeaks("before the background phase")
+		if d.Viol != nil {
+			return
+		}
+	}
 	if !d.CloseStore("gcprog-bg") {
 		return
 	}
@@ -489,19 +535,40 @@ func (d *Driver) gcProgBackground(p *Plan, target map[uint64]bool, oldFirst uint
 		d.fail("gcprog/open-error", "reopen with background collectors failed: %v", err)
 		return
 	}
+	// cycles are counted on the simulated disk: every primary GC cycle begins by
+	// renaming the freelist file to .gc, every index GC cycle by opening the
+	// index header (nothing else does either on an idle store). The bounds below
+	// are in cycles; simulated time only caps the wait.
+	var pcycles, icycles int
+	fs := fsOf()
+	prevHook := fs.Hook
+	fs.Hook = func(f *simos.FS, rec *simos.OpRec, data []byte) simos.Action {
+		switch {
+		case rec.Kind == simos.OpRename && strings.HasSuffix(rec.Path2, ".free.gc"):
+			pcycles++
+		case rec.Kind == simos.OpOpen && rec.Path == indexPath+".info":
+			icycles++
+		}
+		if prevHook != nil {
+			return prevHook(f, rec, data)
+		}
+		return simos.Action{}
+	}
+	defer func() { fs.Hook = prevHook }()
+	cyclesBoth := func() int {
+		if pcycles < icycles {
+			return pcycles
+		}
+		return icycles
+	}
 	left := func() (pl, il []uint64) {
 		files := fsOf().Files()
-		for f := range target {
-			if data, ok := files[fmt.Sprintf("%s.%d", dataPath, f)]; ok && len(data) != 0 {
-				pl = append(pl, f)
-			}
-		}
+		pl = released() // same completion rule as the explicit-cycle classes
 		for _, f := range cand {
 			if data, ok := files[fmt.Sprintf("%s.%d", indexPath, f)]; ok && len(data) != 0 {
 				il = append(il, f)
 			}
 		}
-		sort.Slice(pl, func(i, j int) bool { return pl[i] < pl[j] })
 		sort.Slice(il, func(i, j int) bool { return il[i] < il[j] })
 		return
 	}
@@ -513,27 +580,70 @@ func (d *Driver) gcProgBackground(p *Plan, target map[uint64]bool, oldFirst uint
 	if d.Cfg.GCLimitMs > 0 {
 		K *= 3
 	}
+	// wait until both collectors have completed K cycles (a cycle can take
+	// longer than the interval when the disk is slow); the cap on simulated time
+	// only catches collectors that stop cycling altogether
 	waited := 0
-	for ; waited < K; waited++ {
-		if pl, il := left(); len(pl) == 0 && len(il) == 0 {
-			break
-		}
-		simrt.Sleep(int64(gcMs) * 1000000)
+	// how long one cycle can take on the simulated disk, in intervals: a cycle
+	// touches each file a bounded number of times and each record a few times
+	var totalBytes int
+	nfiles := 0
+	for _, data := range fsOf().Files() {
+		nfiles++
+		totalBytes += len(data)
 	}
-	if pl, il := left(); len(pl) > 0 || len(il) > 0 {
-		if len(pl) > 0 {
-			d.fail("gcprog/bg-primary-not-released", "after %d GC intervals (%d ms each, time limit %d ms) of an idle store with background collectors, primary files %v still hold bytes although every record in them was superseded and flushed", waited, gcMs, d.Cfg.GCLimitMs, pl)
+	opsPerCycle := int64(100 + 12*nfiles + totalBytes/5)
+	perCycle := 2 + int((opsPerCycle*p.Sim.Latency.Base)/(int64(gcMs)*1000000))
+	capIntervals := K * perCycle
+	start := cyclesBoth()
+	pl, il := left()
+	for ; (len(pl) > 0 || len(il) > 0) && cyclesBoth()-start < K && waited < capIntervals; waited++ {
+		simrt.Sleep(int64(gcMs) * 1000000)
+		// the completion rule is evaluated once per step and its verdict kept: a
+		// low-use target is done as soon as it is no longer low-use, and a later
+		// relocation out of it (the collector's own accounting counts size
+		// prefixes and may still see it just above the threshold) does not
+		// re-open the obligation
+		pl, il = left()
+	}
+	if len(pl) > 0 || len(il) > 0 {
+		if cyclesBoth()-start < K {
+			d.fail("gcprog/bg-collector-stalled", "an idle store with background collectors (interval %d ms) completed only %d primary and %d index GC cycles in %d intervals of simulated time; primary files %v, index files %v still hold bytes", gcMs, pcycles, icycles, waited, pl, il)
+		} else if len(pl) > 0 {
+			diag := ""
+			for _, f := range pl {
+				data := fsOf().Files()[fmt.Sprintf("%s.%d", dataPath, f)]
+				l, fr, n, ok := primaryFileStats(data)
+				var live int64
+				for _, b := range d.allLocs() {
+					if uint64(b.Offset)/uint64(d.Cfg.PrimaryFile) == f {
+						live += int64(b.Size)
+					}
+				}
+				offs := ""
+				for pos := 0; pos+4 <= len(data); {
+					sz := binary.LittleEndian.Uint32(data[pos:])
+					if sz&delBit == 0 {
+						offs += fmt.Sprintf(" %d(+%d)", uint64(f)*uint64(d.Cfg.PrimaryFile)+uint64(pos), sz)
+					}
+					pos += 4 + int(sz&^delBit)
+				}
+				diag += fmt.Sprintf(" [file %d: %d bytes, unmarked %d in %d records at%s, marked free %d, referenced by the index %d, parses=%v]", f, len(data), l, n, offs, fr, live, ok)
+			}
+			d.fail("gcprog/bg-primary-not-released", "after %d primary and %d index GC cycles of the background collectors (interval %d ms, time limit %d ms) on an idle store, primary files %v still hold bytes although every record in them was superseded and flushed%s", pcycles, icycles, gcMs, d.Cfg.GCLimitMs, pl, diag)
 		} else {
-			d.fail("gcprog/bg-index-not-released", "after %d GC intervals (%d ms each, time limit %d ms) of an idle store with background collectors, index files %v still hold bytes although no bucket refers into them", waited, gcMs, d.Cfg.GCLimitMs, il)
+			d.fail("gcprog/bg-index-not-released", "after %d primary and %d index GC cycles of the background collectors (interval %d ms, time limit %d ms) on an idle store, index files %v still hold bytes although no bucket refers into them", pcycles, icycles, gcMs, d.Cfg.GCLimitMs, il)
 		}
 		return
 	}
 	d.cprobe("bg-released")
 	d.Probes["bg-intervals-waited"] += waited
-	if target[uint64(oldFirst)] {
+	d.Probes["bg-cycles"] += cyclesBoth() - start
+	if target[uint64(oldFirst)] && p.x("mode", 0) != 1 {
 		if _, ok := fsOf().Files()[fmt.Sprintf("%s.%d", dataPath, oldFirst)]; ok {
 			// emptied by truncation; unlinked when it is visited as the oldest file
-			for i := 0; i < K; i++ {
+			c0 := pcycles
+			for i := 0; pcycles-c0 < K && i < capIntervals; i++ {
 				if _, ok := fsOf().Files()[fmt.Sprintf("%s.%d", dataPath, oldFirst)]; !ok {
 					break
 				}
@@ -541,7 +651,7 @@ func (d *Driver) gcProgBackground(p *Plan, target map[uint64]bool, oldFirst uint
 			}
 		}
 		if _, ok := fsOf().Files()[fmt.Sprintf("%s.%d", dataPath, oldFirst)]; ok {
-			d.fail("gcprog/bg-oldest-not-unlinked", "the oldest primary file %d was emptied but still exists after %d more GC intervals of the background collector", oldFirst, K)
+			d.fail("gcprog/bg-oldest-not-unlinked", "the oldest primary file %d was emptied but still exists after %d more primary GC cycles of the background collector", oldFirst, K)
 			return
 		}
 		if nf := readPrimaryFirst(); nf <= oldFirst {
@@ -556,17 +666,21 @@ func (d *Driver) gcProgBackground(p *Plan, target map[uint64]bool, oldFirst uint
 	if d.Cfg.GCLimitMs > 0 {
 		Bfp *= 3
 	}
+	// one step = at least one more cycle of each collector
 	for r := 0; r < Bfp+3 && stable < 3; r++ {
-		before := filesFingerprint()
-		simrt.Sleep(int64(gcMs) * 1000000)
-		if filesFingerprint() == before {
+		before := dataFingerprint()
+		c0 := cyclesBoth()
+		for i := 0; cyclesBoth() == c0 && i < 2*perCycle; i++ {
+			simrt.Sleep(int64(gcMs) * 1000000)
+		}
+		if dataFingerprint() == before {
 			stable++
 		} else {
 			stable = 0
 		}
 	}
 	if stable < 3 {
-		d.fail("gcprog/bg-no-fixed-point", "an idle store with background collectors (interval %d ms) kept changing its files for %d GC intervals", gcMs, Bfp+3)
+		d.fail("gcprog/bg-no-fixed-point", "an idle store with background collectors (interval %d ms) kept changing the contents of its files for %d GC cycles", gcMs, Bfp+3)
 		return
 	}
 	d.cprobe("fixed-point")
